@@ -487,6 +487,78 @@ func c05tGen(tier string, rng *rand.Rand) []tCase {
 		dec("hand", h.note, h.exp, nil, nil, h.bs)
 		dec("hand-into-prior", h.note, "", nil, []tKV{{B("a"), B("old")}, {B("z"), B{}}}, h.bs)
 	}
+	// --- multi-entry sets: the key / value / element head / buffer length of EVERY position (first, middle, last)
+	// replaced by each inadmissible wire type, also by well-formed fields that leave the reader in sync (ZeroTag,
+	// BYTE, SHORT ...): a mistyped or inflated entry anywhere must make Decode fail, whatever follows it ---
+	sizes := []int{2, 3, 4}
+	if tier == "thorough" {
+		sizes = []int{2, 3, 4, 5, 6, 2, 3, 4, 5, 6}
+	}
+	wireTypes := []byte{0, 1, 2, 3, 4, 5, 6, 7, 8, 9, 10, 12, 13}
+	for _, n := range sizes {
+		type ent struct{ k, v []byte }
+		ents := make([]ent, n)
+		var set []tKV
+		for i := range ents {
+			v := make([]byte, rng.Intn(4))
+			rng.Read(v)
+			ents[i] = ent{[]byte(fmt.Sprintf("%c%d", 'a'+i, rng.Intn(10))), v}
+			set = append(set, tKV{B(ents[i].k), B(v)})
+		}
+		sort.Slice(set, func(i, j int) bool { return bytes.Compare(set[i].K, set[j].K) < 0 })
+		build := func(pos int, repl func(e ent) []byte) []byte {
+			out := hd(n)
+			for i, e := range ents {
+				if i == pos {
+					out = append(out, repl(e)...)
+				} else {
+					out = append(out, cat(str(string(e.k)), val(e.v))...)
+				}
+			}
+			return out
+		}
+		dec("multi/valid", fmt.Sprintf("%d entries, hand-encoded", n), "roundtrip", set, nil, build(-1, nil))
+		for pos := 0; pos < n; pos++ {
+			where := fmt.Sprintf("entry %d of %d", pos+1, n)
+			for _, ty := range wireTypes {
+				ty := ty
+				if ty != 6 && ty != 7 { // the key: a well-formed field of another type at tag 0
+					dec("multi/mistyped-key", fmt.Sprintf("%s: key replaced by a field of wire type %d", where, ty), "err", set, nil,
+						build(pos, func(e ent) []byte { return cat(randFieldOf(rng, ty, 0, 1), val(e.v)) }))
+				}
+				if ty != 13 { // the value: a well-formed field of another type at tag 1 (the reader stays in sync)
+					dec("multi/mistyped-value", fmt.Sprintf("%s: value replaced by a field of wire type %d at tag 1", where, ty), "err", set, nil,
+						build(pos, func(e ent) []byte { return cat(str(string(e.k)), randFieldOf(rng, ty, 1, 1)) }))
+				}
+				if ty != 0 { // the element head of the SimpleList
+					dec("multi/mistyped-elem", fmt.Sprintf("%s: SimpleList element head of wire type %d", where, ty), "err", set, nil,
+						build(pos, func(e ent) []byte { return cat(str(string(e.k)), []byte{0x1d, ty}, mkCount(len(e.v)), e.v) }))
+				}
+			}
+			dec("multi/value-struct-end", where+": StructEnd at tag 1 instead of the value", "err", set, nil,
+				build(pos, func(e ent) []byte { return cat(str(string(e.k)), []byte{0x1b}) }))
+			dec("multi/value-missing", where+": no value, the next key follows", "err", set, nil,
+				build(pos, func(e ent) []byte { return str(string(e.k)) }))
+			dec("multi/value-tag2", where+": value at tag 2", "err", set, nil,
+				build(pos, func(e ent) []byte { return cat(str(string(e.k)), []byte{0x2d, 0x00}, mkCount(len(e.v)), e.v) }))
+			// buffer length inflated beyond everything that follows / negative / mistyped; key length inflated
+			full := build(-1, nil)
+			for _, h := range [][]byte{mkCount(len(full) + 1), {0x02, 0x7f, 0xff, 0xff, 0xff}, {0x00, 0xff}, {0x01, 0x80, 0x00}, {0x03, 0, 0, 0, 0, 0, 0, 0, 1}, {0x10, 0x01}} {
+				h := h
+				dec("multi/inflated-buffer", fmt.Sprintf("%s: buffer length := % x", where, h), "err", set, nil,
+					build(pos, func(e ent) []byte { return cat(str(string(e.k)), []byte{0x1d, 0x00}, h, e.v) }))
+			}
+			dec("multi/inflated-key", where+": STRING1 key length := 255", "err", set, nil,
+				build(pos, func(e ent) []byte { return cat([]byte{0x06, 0xff}, e.k, val(e.v)) }))
+			dec("multi/inflated-key", where+": STRING4 key length := 2^31", "err", set, nil,
+				build(pos, func(e ent) []byte { return cat([]byte{0x07, 0x80, 0, 0, 0}, e.k, val(e.v)) }))
+		}
+		// truncation at every position of the hand-encoded set (inside every entry)
+		full := build(-1, nil)
+		for p := 0; p < len(full); p++ {
+			dec("multi/truncated", fmt.Sprintf("%d entries cut at %d of %d", n, p, len(full)), "err", set, nil, full[:p])
+		}
+	}
 	for _, bm := range skipBombs() {
 		dec("skip-bomb", "top level: "+bm.note, "", nil, nil, bm.bs)
 		dec("skip-bomb", "between key and value: "+bm.note, "", nil, nil, cat(hd(1), str("a"), bm.bs, val([]byte("x"))))
@@ -789,7 +861,8 @@ func tJudgeDec(c *tCase) []Failure {
 		for _, kv := range c.Set {
 			in[string(kv.K)] = string(kv.V)
 		}
-		if strings.HasPrefix(c.Class, "tdec/truncated") || c.Class == "tdec/count-plus-1" || c.Class == "tdec/valid" {
+		if strings.HasPrefix(c.Class, "tdec/truncated") || c.Class == "tdec/count-plus-1" || c.Class == "tdec/valid" || (strings.HasPrefix(c.Class, "tdec/multi/") && c.Class != "tdec/multi/value-missing") {
+			// (value-missing: the next key is skipped as a tag-0 field and the next value is taken - input bytes, not made up)
 			for _, kv := range c.Final {
 				if v, ok := in[string(kv.K)]; !ok || v != string(kv.V) {
 					fs = append(fs, Failure{Sig: "tup/made-up-entry", Desc: fmt.Sprintf("%s: decoded entry %q=% x is not an entry of the encoded set", c.Note, string(kv.K), trunc(kv.V))})
